@@ -2,4 +2,5 @@ pub mod gen;
 pub mod isolate;
 pub mod model;
 pub mod props;
+pub mod refint;
 pub mod runner;
